@@ -88,7 +88,7 @@ Monitors(r, prev) ==
                   \cup (IF PosOK(r.bytes, r.res.o, r.res.l, r.res.c) THEN {}
                         ELSE {<<"error_linecol", r.res.o, r.res.l, r.res.c>>})
                   \cup (IF r.res.nexp >= 1 THEN {} ELSE {<<"no_expected_tokens">>})
-      c13 == IF ok THEN C13Tree(r.bytes, r.tree) ELSE {}
+      c13 == IF ok THEN C13TreeWs(r.bytes, r.tree, wsl) ELSE {}
       \* C14, second sentence: the same tokens with other layout between them give the same tree
       \* (prev is then the plain rendering of the same token string)
       twin == "twin" \in DOMAIN r.meta /\ r.meta.twin = "layout" /\ prev.iid = r.iid /\ prev.id = r.id
